@@ -90,7 +90,7 @@ def run(ctx):
     def record(name, p):
         for e in p.effects:
             if e.kind == "write" and e.item == STATE:
-                o, t, prob = state_delta(e)
+                o, t, prob = state_delta(e, p)
                 acct.setdefault(name, []).append((e, o, t, prob))
     for p in paths:
         record("receive", p)
@@ -200,7 +200,7 @@ def check_packets(ctx, ex, it):
                         prob = "%d escrow writes for one packet" % len(w)
                     else:
                         e = w[0]
-                        o, t, pr = state_delta(e)
+                        o, t, pr = state_delta(e, p)
                         if o is None:
                             prob = pr
                         else:
